@@ -199,13 +199,21 @@ def gen_model(seed):
     if r.chance(1, 2):
         for gi in range(1 + r.below(2)):
             members = [t["name"] for t in traits if r.chance(2, 3)] or [traits[0]["name"]]
-            groups.append({
+            g = {
                 "name": ["Bundle", "Kit"][gi],
                 "traits": members,
                 "conts": [c for c in ("Box", "Mut") if r.chance(1, 2)] or ["Box"],
                 "ctxs": [contexts[0]] + ([contexts[1]] if len(contexts) > 1 and r.chance(1, 3) else []),
                 "clone": r.chance(1, 2),
-            })
+            }
+            if g["clone"]:
+                # Clone exists for boxed instances only, and the wrapper of a container-returning
+                # entry is typed for one instantiation: one context per cloneable group (as in the
+                # pregenerated example)
+                if "Box" not in g["conts"]:
+                    g["conts"] = ["Box"] + g["conts"]
+                g["ctxs"] = g["ctxs"][:1]
+            groups.append(g)
     model = {
         "v": 2,
         "seed": seed,
